@@ -93,9 +93,9 @@ theorem history_forget_handle_core (cfg : Cfg) (w : World) (hr : Hist.Reach cfg 
     (hv : Hist.liveVec w.vecs v) :
     (runStep cfg (.remove v i .forget) none w).1.Inv ∧ (runStep cfg (.swapRemove v i .forget) none w).1.Inv ∧
       (runStep cfg (.pop v .forget) none w).1.Inv :=
-  ⟨(Hist.runStep_inv cfg (.remove v i .forget) none w (Hist.reach_inv_core cfg w hr) (Or.inl trivial) ⟨hv, fun _ hm => hm.elim⟩).1,
-   (Hist.runStep_inv cfg (.swapRemove v i .forget) none w (Hist.reach_inv_core cfg w hr) (Or.inl trivial) ⟨hv, fun _ hm => hm.elim⟩).1,
-   (Hist.runStep_inv cfg (.pop v .forget) none w (Hist.reach_inv_core cfg w hr) (Or.inl trivial) ⟨hv, fun _ hm => hm.elim⟩).1⟩
+  ⟨(Hist.runStep_inv cfg (.remove v i .forget) none w (Hist.reach_inv_core cfg w hr) trivial ⟨hv, trivial⟩).1,
+   (Hist.runStep_inv cfg (.swapRemove v i .forget) none w (Hist.reach_inv_core cfg w hr) trivial ⟨hv, trivial⟩).1,
+   (Hist.runStep_inv cfg (.pop v .forget) none w (Hist.reach_inv_core cfg w hr) trivial ⟨hv, trivial⟩).1⟩
 
 /-- **history theorem**: forgetting a `Drain` at any stage of consumption (after any pattern of
 `next`/`next_back`, items dropped, forgotten, downcast) keeps the world invariant. -/
